@@ -2,13 +2,15 @@
 from __future__ import annotations
 
 import ast
-from typing import Dict, List, Optional, Set
+from typing import List
 
 from ..cfg import cfg_of
-from ..facts import disjuncts
+from ..dataflow import _rd_of, cfg_node_of
 from ..fold import Unknown, fold_in_fn, fold_name
-from ..model import AnalysisError, ancestors, parent, text, walk_fn
-from .c05 import _cfg_node_of_expr, _peek_derived_names, key_value_set
+from ..lexsim import LexerSim
+from ..minieval import Unsupported
+from ..model import AnalysisError, enclosing_stmt, parent, text, walk_fn
+from .c10 import _expanded_strings
 
 RESPELLABLE = set("{}[]#\\^|~")
 TRIGRAPHS = {"??<": "{", "??>": "}", "??(": "[", "??)": "]", "??=": "#", "??/": "\\", "??'": "^", "??!": "|", "??-": "~"}
@@ -26,8 +28,240 @@ def _strings_in(v) -> List[str]:
     return []
 
 
+def _table_aliases(fn):
+    """Names under which the trigraph / digraph tables of lexer/dictionary.py are visible in the module of *fn*."""
+    from ..model import program
+    prog = program()
+    tri, di = {"trigraphs"}, {"digraphs"}
+    mod = fn.mod
+    for nm in list(mod.imports) + list(mod.assigns):
+        home = prog.global_home(mod, nm)
+        if home is not None and home[0].rel == "lexer/dictionary.py":
+            if home[1] == "trigraphs":
+                tri.add(nm)
+            elif home[1] == "digraphs":
+                di.add(nm)
+    return tri, di
+
+
+
+def _table_tests(fn, g):
+    """CFG test nodes of *fn* that decide membership in the trigraph / digraph tables: ([trigraph tests], [digraph tests])."""
+    tri, di = [], []
+    tri_names, di_names = _table_aliases(fn)
+    for node in g.nodes:
+        if node.kind != "test" or node.ast is None:
+            continue
+        names = {x.id for x in ast.walk(node.ast) if isinstance(x, ast.Name)}
+        has_in = any(isinstance(c, ast.Compare) and any(isinstance(o, (ast.In, ast.NotIn)) for o in c.ops) for c in ast.walk(node.ast))
+        if not has_in:
+            continue
+        if names & tri_names:
+            tri.append(node.id)
+        elif names & di_names:
+            di.append(node.id)
+    return tri, di
+
+
+def _node_ast(g, nid):
+    a = g.nodes[nid].ast
+    if isinstance(a, ast.For):
+        return a.iter
+    return a
+
+
+def _only_via_false_edge(g, a, b) -> bool:
+    """b is reached from test a only through a's F edge (not from its T branch without re-evaluating a)."""
+    t_succ = [m for m, lab in g.succ[a] if lab == "T"]
+    for m in t_succ:
+        if m == b or g.can_reach(m, b, avoid={a}, follow_exc=False):
+            return False
+    return True
+
+
+def translation_chains(fn):
+    """(well-ordered digraph tests, misplaced digraph tests, trigraph tests): a digraph membership test is well ordered
+    when some trigraph membership test dominates it and it is reached only when that test failed."""
+    g = cfg_of(fn)
+    tri, di = _table_tests(fn, g)
+    good, bad = [], []
+    for d in di:
+        ok = any(g.dominates(t, d, follow_exc=False) and _only_via_false_edge(g, t, d) for t in tri)
+        (good if ok else bad).append(d)
+    # table-driven form: `for table, width in ((trigraphs, 3), (digraphs, 2)): if <x> in table: ...; break`
+    tri_names, di_names = _table_aliases(fn)
+    for lp in walk_fn(fn.node):
+        if not (isinstance(lp, ast.For) and isinstance(lp.iter, (ast.Tuple, ast.List))):
+            continue
+        order = []
+        for el in lp.iter.elts:
+            first = el.elts[0] if isinstance(el, (ast.Tuple, ast.List)) and el.elts else el
+            if isinstance(first, ast.Name) and first.id in tri_names | di_names:
+                order.append("trigraphs" if first.id in tri_names else "digraphs")
+        if "digraphs" not in order:
+            continue
+        tnames = {x.id for x in ast.walk(lp.target) if isinstance(x, ast.Name)}
+        member = any(isinstance(c, ast.Compare) and isinstance(c.ops[0], (ast.In, ast.NotIn)) and isinstance(c.comparators[0], ast.Name)
+                     and c.comparators[0].id in tnames for st in lp.body for c in ast.walk(st))
+        nid = g.nid(lp)
+        if not member or nid is None:
+            continue
+        leaves_on_match = any(isinstance(x, (ast.Break, ast.Return)) for st in lp.body for x in ast.walk(st))
+        ok = "trigraphs" in order and order.index("trigraphs") < order.index("digraphs") and leaves_on_match
+        (good if ok else bad).append(nid)
+    return g, good, bad, tri
+
+
+def _chain_member(fn, stmt) -> bool:
+    """The statement lies in a region controlled by a well-ordered trigraph/digraph test of *fn* (a branch of a
+    translation chain: what it appends is the translated character, also in the plain-character arm)."""
+    g, good, bad, tri = translation_chains(fn)
+    if not good:
+        return False
+    sid = cfg_node_of(g, stmt)
+    if sid is None:
+        return False
+    return any(g.dominates(d, sid, follow_exc=False) for d in good)
+
+
+class Translated:
+    """Flow-sensitive judgement 'this local holds a character that went through the trigraph/digraph translation' (or a
+    constant), by reaching definitions: every definition reaching the use must itself be translated."""
+
+    def __init__(self, fn):
+        self.fn = fn
+        self.g, self.rd = _rd_of(fn)
+        self.memo = {}
+        a, b = _table_aliases(fn)
+        self.tables = a | b
+
+    def name_at(self, name: str, nid: int) -> bool:
+        defs = self.rd.get(nid, {}).get(name)
+        if not defs:
+            return False
+        return all(self.def_ok(name, d) for d in defs)
+
+    def def_ok(self, name: str, d: int) -> bool:
+        if d < 0:
+            return False
+        k = (name, d)
+        if k in self.memo:
+            return self.memo[k]
+        self.memo[k] = True                      # coinductive: a loop-carried accumulation is judged by its other inputs
+        node = self.g.nodes[d]
+        a = node.ast
+        ok = False
+        if node.kind == "stmt" and isinstance(a, ast.Assign):
+            ok = True
+            hit = False
+            for t in a.targets:
+                comp = self._component(t, a.value, name)
+                if comp is not None:
+                    hit = True
+                    ok = ok and self.expr_ok(comp, d)
+            for w in ast.walk(a.value):
+                if isinstance(w, ast.NamedExpr) and w.target.id == name:
+                    hit = True
+                    ok = ok and self.expr_ok(w.value, d)
+            ok = ok and hit
+        elif node.kind == "stmt" and isinstance(a, ast.AnnAssign) and a.value is not None:
+            ok = self.expr_ok(a.value, d)
+        elif node.kind == "stmt" and isinstance(a, ast.AugAssign) and isinstance(a.target, ast.Name) and isinstance(a.op, ast.Add):
+            ok = self.name_at(name, d) and (self.expr_ok(a.value, d) or _chain_member(self.fn, a))
+        elif a is not None and not isinstance(a, (ast.For, ast.AsyncFor, ast.With, ast.ExceptHandler)):
+            # walrus inside a test / expression statement
+            ws = [w for w in ast.walk(a) if isinstance(w, ast.NamedExpr) and w.target.id == name]
+            ok = bool(ws) and all(self.expr_ok(w.value, d) for w in ws)
+        self.memo[k] = ok
+        return ok
+
+    def _component(self, target, value, name):
+        if isinstance(target, ast.Name):
+            return value if target.id == name else None
+        if isinstance(target, (ast.Tuple, ast.List)):
+            if isinstance(value, (ast.Tuple, ast.List)) and len(value.elts) == len(target.elts):
+                for t, v in zip(target.elts, value.elts):
+                    got = self._component(t, v, name)
+                    if got is not None:
+                        return got
+                return None
+            if any(isinstance(x, ast.Name) and x.id == name for x in ast.walk(target)):
+                return value
+        return None
+
+    def expr_ok(self, e, at: int) -> bool:
+        if isinstance(e, ast.Constant):
+            return True
+        if any(isinstance(c, ast.Call) and text(c.func) == "self.peek" for c in ast.walk(e)):
+            return True
+        if isinstance(e, ast.Name):
+            return self.name_at(e.id, at)
+        if isinstance(e, ast.NamedExpr):
+            return self.expr_ok(e.value, at)
+        if isinstance(e, (ast.Tuple, ast.List)):
+            return all(self.expr_ok(x, at) for x in e.elts)
+        if isinstance(e, ast.Subscript):
+            if isinstance(e.value, ast.Name) and e.value.id in self.tables:
+                return True
+            return self.expr_ok(e.value, at)
+        if isinstance(e, ast.BinOp) and isinstance(e.op, (ast.Add, ast.Mult)):
+            return self.expr_ok(e.left, at) and self.expr_ok(e.right, at)
+        if isinstance(e, ast.IfExp):
+            return self.expr_ok(e.body, at) and self.expr_ok(e.orelse, at)
+        if isinstance(e, ast.Call) and isinstance(e.func, ast.Name) and e.func.id == "cast" and len(e.args) == 2:
+            return self.expr_ok(e.args[1], at)
+        return False
+
+    def subject_ok(self, e) -> bool:
+        at = cfg_node_of(self.g, e)
+        if at is None:
+            return False
+        return self.expr_ok(e, at)
+
+
+def _decisions_fed(fn, test):
+    """The branch conditions a boolean sub-expression takes part in: the enclosing if/while/conditional test, or -- when it
+    is first stored in a local -- every test that reads that local."""
+    st = enclosing_stmt(test)
+    n = test
+    while parent(n) is not None and parent(n) is not st and not isinstance(parent(n), ast.IfExp):
+        n = parent(n)
+    p_ = parent(n)
+    if isinstance(p_, ast.IfExp) and n is p_.test:
+        return [p_.test]
+    if isinstance(st, (ast.If, ast.While)) and any(x is test for x in ast.walk(st.test)):
+        return [st.test]
+    if isinstance(st, (ast.Assign, ast.AnnAssign)):
+        tg = st.targets if isinstance(st, ast.Assign) else [st.target]
+        names = {t.id for t in tg if isinstance(t, ast.Name)}
+        out = []
+        for m in walk_fn(fn.node):
+            if isinstance(m, (ast.If, ast.While)) and any(isinstance(x, ast.Name) and x.id in names for x in ast.walk(m.test)):
+                out.append(m.test)
+            elif isinstance(m, ast.IfExp) and any(isinstance(x, ast.Name) and x.id in names for x in ast.walk(m.test)):
+                out.append(m.test)
+        return out
+    if isinstance(st, ast.Return):
+        return [st.value]
+    return []
+
+
+
+def _respellings(key: str, tri, di, limit=64):
+    """All spellings of *key* obtained by writing each respellable character plainly, as a digraph or as a trigraph."""
+    alts = []
+    for ch in key:
+        a = [ch] + sorted(k for k, v in di.items() if v == ch) + sorted(k for k, v in tri.items() if v == ch)
+        alts.append(a)
+    out = [""]
+    for a in alts:
+        out = [x + y for x in out for y in a][:limit * 4]
+    return [x for x in out if x != key][:limit]
+
+
+
 def check(run, prog):
-    lm = prog.mod("lexer/lexer.py")
+    prog.mod("lexer/lexer.py")
     dm = prog.mod("lexer/dictionary.py")
     try:
         tables = {n: fold_name(n, dm) for n in ("operators", "brackets", "keywords", "trigraphs", "digraphs")}
@@ -76,150 +310,171 @@ def check(run, prog):
         run.ob("R-12.1", f"{fn.key}::raw-decisions", not bad,
                "a punctuator decision is taken on the raw (untranslated) character: " + "; ".join(w for _, w in bad[:3])
                + " - the digraph/trigraph spelling would be tokenized differently", bad[0][0] if bad else fn.node, raw_comparisons=n_dec)
-        # the sub-parser looks at the translated character at all
-        uses_peek = any(isinstance(c, ast.Call) and text(c.func) == "self.peek" for c in walk_fn(fn.node))
+        # the sub-parser looks at the translated character at all (through peek(), or through its inlined chain)
+        uses_peek = any(isinstance(c, ast.Call) and text(c.func) == "self.peek" for c in walk_fn(fn.node)) \
+            or bool(translation_chains(fn)[1])
         run.ob("R-12.1", f"{fn.key}::uses-translating-peek", uses_peek, f"{fname} never consults the translating peek()", fn.node)
+        # ... and, interpreted on every respelling of every key of its table, yields the kind of the plain spelling
+        tname = "operators" if fname == "parse_operator" else "brackets"
+        diff = None
+        n_sp = 0
+        try:
+            for key in sorted(tables[tname]):
+                for sp in _respellings(key, tables["trigraphs"], tables["digraphs"]):
+                    n_sp += 1
+                    res = []
+                    for src in (key, sp):
+                        sim = LexerSim(prog, src + " \n")
+                        out = sim.call(fname)
+                        res.append((out.kind, getattr(out.value, "type", None) if out.kind == "ok" else out.exc, sim.pos == len(src)))
+                    if diff is None and (res[0] != res[1] or not res[0][2] or res[0][0] != "ok"):
+                        diff = (key, sp, res)
+        except Unsupported as e:
+            raise AnalysisError(f"Lexer.{fname} is outside the evaluable subset: {e}")
+        run.ob("R-12.1", f"{fn.key}::respelling-invariant", diff is None and n_sp > 0,
+               (f"{diff[0]!r} gives {diff[2][0][1]} but its spelling {diff[1]!r} gives {diff[2][1][1]} "
+                f"(whole lexeme consumed: {diff[2][0][2]} / {diff[2][1][2]})") if diff else "no respellable key", fn.node, spellings=n_sp)
     pk = prog.method("Lexer", "peek")
-
-    def chains(fn):
-        """The trigraph -> digraph -> plain if/elif/elif chains of a function; (ok chains, malformed chains)."""
-        good, bad_ = [], []
-        for n in walk_fn(fn.node):
-            if isinstance(n, ast.If) and "trigraphs" in text(n.test) and not (
-                    isinstance(parent(n), ast.If) and n in parent(n).orelse and "trigraphs" in text(parent(n).test)):
-                okc = len(n.orelse) == 1 and isinstance(n.orelse[0], ast.If) and "digraphs" in text(n.orelse[0].test) \
-                    and "trigraphs" not in text(n.orelse[0].test) \
-                    and len(n.orelse[0].orelse) == 1 and isinstance(n.orelse[0].orelse[0], ast.If) \
-                    and "raw_peek" in text(n.orelse[0].orelse[0].test)
-                (good if okc else bad_).append(n)
-        # a digraph / plain test that is not below a trigraph test
-        for n in walk_fn(fn.node):
-            if isinstance(n, ast.If) and "digraphs" in text(n.test) and "trigraphs" not in text(n.test):
-                p_ = parent(n)
-                if not (isinstance(p_, ast.If) and n in p_.orelse and "trigraphs" in text(p_.test)):
-                    bad_.append(n)
-        return good, bad_
-    good, bad_ = chains(pk)
-    run.ob("R-12.1", f"{pk.key}::translation-order", bool(good) and not bad_,
-           f"peek() does not test trigraph, then digraph, then plain character in one if/elif/elif chain "
-           f"({len(good)} well-formed chain(s), {len(bad_)} malformed)", (bad_ or [pk.node])[0])
+    run.require(pk is not None, "anchor vanished: Lexer.peek")
+    g_pk, good, bad_, tri_tests = translation_chains(pk)
+    # what peek() returns for every key of the two tables, for a plain character and for two characters in a row
+    wrong = None
+    try:
+        cases = [(k, (v, len(k))) for k, v in sorted(tables["trigraphs"].items())] + \
+                [(k, (v, len(k))) for k, v in sorted(tables["digraphs"].items())] + [("a", ("a", 1)), ("?", ("?", 1)), ("<", ("<", 1))]
+        for src, want in cases:
+            sim = LexerSim(prog, src + "x")
+            out = sim.call("peek")
+            got = tuple(out.value) if out.kind == "ok" and isinstance(out.value, (tuple, list)) else out
+            if got != want and wrong is None:
+                wrong = (src, want, got)
+        t3, d2 = sorted(tables["trigraphs"])[0], sorted(tables["digraphs"])[0]
+        want = (tables["trigraphs"][t3] + tables["digraphs"][d2] + "a", len(t3) + len(d2) + 1)
+        sim = LexerSim(prog, t3 + d2 + "a")
+        out = sim.call("peek", times=3)
+        if wrong is None and not (out.kind == "ok" and tuple(out.value or ()) == want):
+            wrong = (f"{t3 + d2 + 'a'} (times=3)", want, out)
+    except Unsupported as e:
+        raise AnalysisError(f"Lexer.peek is outside the evaluable subset: {e}")
+    run.ob("R-12.1", f"{pk.key}::translation-order", bool(good) and not bad_ and wrong is None,
+           f"peek() does not test trigraph, then digraph, then plain character "
+           f"({len(good)} digraph test(s) reached only after a failed trigraph test, {len(bad_)} misplaced"
+           + (f"; peek() on {wrong[0]!r} returns {wrong[2]!r}, expected {wrong[1]!r}" if wrong else "") + ")",
+           _node_ast(g_pk, (bad_ or good or [g_pk.entry])[0]) or pk.node)
     pop = prog.method("Lexer", "pop")
-    pgood, pbad = chains(pop)
+    run.require(pop is not None, "anchor vanished: Lexer.pop")
+    _, pgood, pbad, _ = translation_chains(pop)
     reads = sorted([c for c in walk_fn(pop.node) if isinstance(c, ast.Call) and text(c.func) in ("self.peek", "self.raw_peek")],
                    key=lambda c: (c.lineno, c.col_offset))
-    # the first read of a character is the translating peek(), or the translation chain itself (peek's body inlined)
-    first = reads[0] if reads else None
-    ok_first = first is not None and (text(first.func) == "self.peek" or any(
-        any(x is first for x in ast.walk(c.test)) for c in pgood))
-    run.ob("R-12.1", f"{pop.key}::reads-through-peek", ok_first and not pbad,
-           "pop() does not read the next character through the translating peek()", pop.node,
-           reads=[text(c.func) for c in reads][:6])
+    # pop() returns the translated character and consumes its whole spelling
+    wrong = None
+    try:
+        for src, (want, size) in cases:
+            if want == "\\":
+                continue                      # a backslash starts an escape / a splice: R-12.2
+            sim = LexerSim(prog, src + "x")
+            out = sim.call("pop")
+            if wrong is None and not (out.kind == "ok" and out.value == want and sim.pos == size):
+                wrong = (src, want, size, out, sim.pos)
+    except Unsupported as e:
+        raise AnalysisError(f"Lexer.pop is outside the evaluable subset: {e}")
+    run.ob("R-12.1", f"{pop.key}::reads-through-peek", wrong is None and not pbad,
+           "pop() does not read the next character through the translating peek()"
+           + (f": on {wrong[0]!r} it returns {wrong[3]!r} and consumes {wrong[4]} (expected {wrong[1]!r}, {wrong[2]})" if wrong else ""),
+           pop.node, reads=[text(c.func) for c in reads][:6])
 
     # ---- R-12.2 --------------------------------------------------------------------------------
     run.rule("R-12.2", "both splice spellings: every test for a line splice compares against both backslash-newline and "
-             "??/-newline, or is made on a translated character", floor=2)
+             "??/-newline (in the decision it feeds), or is made on a translated character (every definition reaching the "
+             "test comes from peek() / the translation chain)", floor=2)
     n_splice = 0
     for fn in prog.functions_in("lexer/lexer.py"):
-        peeked = _peek_derived_names(fn)
-        translated = set()
+        tr = None
         for n in walk_fn(fn.node):
-            tgt = val = None
-            if isinstance(n, ast.Assign) and len(n.targets) == 1:
-                tgt, val = n.targets[0], n.value
-            elif isinstance(n, ast.NamedExpr):
-                tgt, val = n.target, n.value
-            if tgt is not None and val is not None and any(isinstance(c, ast.Call) and text(c.func) == "self.peek" for c in ast.walk(val)):
-                for x in ast.walk(tgt):
-                    if isinstance(x, ast.Name):
-                        translated.add(x.id)
-        # names unpacked from translated names
-        changed = True
-        while changed:
-            changed = False
-            for n in walk_fn(fn.node):
-                if isinstance(n, ast.Assign) and isinstance(n.value, ast.Name) and n.value.id in translated:
-                    for x in ast.walk(n.targets[0]):
-                        if isinstance(x, ast.Name) and x.id not in translated:
-                            translated.add(x.id)
-                            changed = True
-        for n in walk_fn(fn.node):
-            if not (isinstance(n, ast.Compare) and len(n.ops) == 1):
+            subject = None
+            if isinstance(n, ast.Compare) and len(n.ops) == 1:
+                sides = [n.left, n.comparators[0]]
+                lit = [x for x in sides if any(isinstance(c, ast.Constant) and c.value in ("\\", "\\\n", "??/", "??/\n") for c in ast.walk(x))]
+                if not lit:
+                    continue
+                subject = sides[1] if lit[0] is sides[0] else sides[0]
+                consts = [c.value for c in ast.walk(n) if isinstance(c, ast.Constant) and isinstance(c.value, str)]
+            elif isinstance(n, ast.Call) and isinstance(n.func, ast.Attribute) and n.func.attr in ("startswith", "endswith") and n.args:
+                v = fold_in_fn(n.args[0], fn, default=None)
+                consts = list(v) if isinstance(v, (tuple, list)) else [v] if isinstance(v, str) else []
+                if not any(c in ("\\", "\\\n", "??/", "??/\n") for c in consts):
+                    continue
+                subject = n.func.value
+            else:
                 continue
-            consts = [c.value for c in ast.walk(n) if isinstance(c, ast.Constant) and isinstance(c.value, str)]
             is_bs = any(c in ("\\", "\\\n") for c in consts)
-            is_tri = any(c in ("??/", "??/\n") for c in consts)
-            if not (is_bs or is_tri):
-                continue
             n_splice += 1
             key = f"{fn.key}::splice-test[{text(n, 40)}]"
-            subject = n.left
-            on_translated = any(isinstance(x, ast.Name) and x.id in translated for x in ast.walk(subject)) \
-                or any(isinstance(c, ast.Call) and text(c.func) == "self.peek" for c in ast.walk(subject))
-            if on_translated and is_bs:
+            if tr is None:
+                tr = Translated(fn)
+            if is_bs and tr.subject_ok(subject):
                 run.ob("R-12.2", key, True, "on a translated character", n)
                 continue
-            # raw test: the sibling spelling must be an alternative of the same `or`
-            p = parent(n)
-            sib_ok = False
-            if isinstance(p, ast.BoolOp) and isinstance(p.op, ast.Or):
-                alts = [[c.value for c in ast.walk(v) if isinstance(c, ast.Constant) and isinstance(c.value, str)] for v in p.values]
-                has_bs = any("\\\n" in a for a in alts)
-                has_tri = any("??/\n" in a for a in alts)
-                sib_ok = has_bs and has_tri
+            # raw test: the decision it feeds must also test the sibling spelling
+            decisions = _decisions_fed(fn, n)
+            sib_ok = bool(decisions)
+            contains = isinstance(n, ast.Compare) and isinstance(n.ops[0], (ast.In, ast.NotIn)) and subject is n.comparators[0]
+            for d in decisions:
+                strs = _expanded_strings(fn, d)
+                bs = "\\\n" in strs or (contains and "\\" in strs)
+                tri = "??/\n" in strs or (contains and any(c in strs for c in ("??/", "??", "?")))
+                if not (bs and tri):
+                    sib_ok = False
             run.ob("R-12.2", key, sib_ok,
                    "a line splice is recognised in one spelling only (backslash-newline vs ??/-newline) on raw characters", n)
     run.require(n_splice >= 2, f"only {n_splice} splice tests found (floor 2)")
 
     # ---- R-12.3 --------------------------------------------------------------------------------
-    run.rule("R-12.3", "longest first: in parse_operator a candidate whose spelling extends another candidate is tested "
-             "before it (dominance of the guards), the block of multi-character tests is entered for every first character "
-             "of a multi-character operator, and the one-character fallback comes after it", floor=3)
+    run.rule("R-12.3", "longest first (maximal munch over the operator table): parse_operator, interpreted on every operator "
+             "key followed by every character of the operator alphabet, a letter or a blank, returns the longest key that "
+             "prefixes the text and consumes exactly it: every multi-character key is produced whole, a longer candidate wins "
+             "over its prefixes, and the one-character operator is what remains otherwise", floor=3)
     po = prog.method("Lexer", "parse_operator")
-    g = cfg_of(po)
-    sites = []
-    for n in walk_fn(po.node):
-        if isinstance(n, ast.Subscript) and isinstance(n.value, ast.Name) and n.value.id == "operators":
-            vs = key_value_set(po, n.slice, n, tables)
-            guards = [a for a in ancestors(n) if isinstance(a, ast.If)]
-            sites.append((n, vs, guards))
-    run.require(len(sites) >= 4, "anchor vanished: operators[...] sites of parse_operator")
-    bad = []
-    for a_node, a_keys, a_guards in sites:
-        for b_node, b_keys, b_guards in sites:
-            if a_node is b_node or a_keys is None or b_keys is None:
-                continue
-            if not b_guards:
-                continue        # the unguarded one-character fallback: covered by the two obligations below
-            if any(ka != kb and ka.startswith(kb) for ka in a_keys for kb in b_keys):
-                # a (longer) must be decided before b: a's innermost guard test dominates b's site
-                if not a_guards:
-                    bad.append((a_node, b_node, "longer candidate has no guard"))
+    run.require(po is not None, "anchor vanished: Lexer.parse_operator")
+    ops = tables["operators"]
+    spell_keys = list(tables["trigraphs"]) + list(tables["digraphs"])
+    alphabet = sorted({c for k in ops for c in k}) + ["a", " "]
+    fails = {"multi": [], "longest": [], "single": []}
+    n_runs = 0
+    try:
+        for k in sorted(ops, key=lambda x: (len(x), x)):
+            for c in alphabet:
+                src = k + c
+                if any(sp in src for sp in spell_keys):
+                    continue                       # that text is another spelling of something else: R-12.1
+                want = max((x for x in ops if src.startswith(x)), key=len)
+                sim = LexerSim(prog, src + " \n")
+                out = sim.call("parse_operator")
+                n_runs += 1
+                got = getattr(out.value, "type", None) if out.kind == "ok" else f"raise {out.exc}"
+                if got == ops[want] and sim.pos == len(want):
                     continue
-                ga = g.nid(a_guards[0].test)
-                nb = _cfg_node_of_expr(g, b_node)
-                if ga is None or nb is None or not g.dominates(ga, nb, follow_exc=False):
-                    # allowed if b is inside a's own guard chain evaluated later? no: report
-                    bad.append((a_node, b_node, f"{sorted(b_keys)[:3]} can be taken before {sorted(a_keys)[:3]} is tried"))
-    unknown = [n for n, vs, _ in sites if vs is None]
-    run.ob("R-12.3", f"{po.key}::longest-first", not bad and not unknown,
-           "operator candidates are not tried longest first: " + "; ".join(w for _, _, w in bad[:3]),
-           bad[0][1] if bad else po.node, sites=len(sites))
-    multi_first = {k[0] for k in tables["operators"] if len(k) > 1}
-    blocks = [n for n in walk_fn(po.node) if isinstance(n, ast.If) and isinstance(n.test, ast.Compare)
-              and isinstance(n.test.ops[0], ast.In) and text(n.test.left) == "char"
-              and any(isinstance(x, ast.Subscript) and text(x.value) == "operators" for x in ast.walk(n))]
-    ok = False
-    if blocks:
-        s_ = fold_in_fn(blocks[0].test.comparators[0], po, default=None)
-        ok = isinstance(s_, str) and multi_first <= set(s_)
-        missing = sorted(multi_first - set(s_ or ""))
-    run.ob("R-12.3", f"{po.key}::multi-char-block-entered", ok,
-           f"operators starting with {missing if blocks else '?'} have multi-character forms but skip the multi-character tests",
-           blocks[0] if blocks else po.node)
-    fallback = [n for n, vs, gs in sites if not any(gg in blocks for gg in gs)]
-    ok = len(fallback) == 1 and bool(blocks) and blocks[0].lineno < fallback[0].lineno and not blocks[0].orelse
-    run.ob("R-12.3", f"{po.key}::fallback-last", ok, "the one-character fallback is not the last resort of parse_operator",
-           fallback[0] if fallback else po.node)
+                rec = (src, want, ops[want], got, sim.pos)
+                if len(k) == 1 and len(want) == 1:
+                    fails["single"].append(rec)
+                elif c == " ":
+                    fails["multi"].append(rec)
+                else:
+                    fails["longest"].append(rec)
+    except Unsupported as e:
+        raise AnalysisError(f"Lexer.parse_operator is outside the evaluable subset: {e}")
+    run.require(n_runs >= 200, f"only {n_runs} (operator, next character) pairs evaluated (floor 200)")
+
+    def show(recs):
+        return "; ".join(f"{s_!r} -> {g_} ({p_} consumed), expected {t_} for {w_!r}" for s_, w_, t_, g_, p_ in recs[:3])
+
+    run.ob("R-12.3", f"{po.key}::longest-first", not fails["longest"],
+           "operator candidates are not tried longest first: " + show(fails["longest"]), po.node, evaluations=n_runs)
+    firsts = sorted({r[1][0] for r in fails["multi"]})
+    run.ob("R-12.3", f"{po.key}::multi-char-block-entered", not fails["multi"],
+           f"operators starting with {firsts} have multi-character forms that are not produced: " + show(fails["multi"]), po.node)
+    run.ob("R-12.3", f"{po.key}::fallback-last", not fails["single"],
+           "the one-character fallback is not the last resort of parse_operator: " + show(fails["single"]), po.node)
 
     # ---- R-12.4 --------------------------------------------------------------------------------
     run.rule("R-12.4", "TABLE: trigraphs are exactly the nine of C11 5.2.1.1, digraphs include the five of 6.4.6, and every "
@@ -227,11 +482,11 @@ def check(run, prog):
     tri, di = tables["trigraphs"], tables["digraphs"]
     run.ob("R-12.4", "lexer/dictionary.py::trigraphs", tri == TRIGRAPHS,
            f"trigraph table differs from the standard one: missing/wrong {sorted(set(TRIGRAPHS.items()) - set(tri.items()))}, "
-           f"extra {sorted(set(tri.items()) - set(TRIGRAPHS.items()))}", dm.assigns["trigraphs"][0])
+           f"extra {sorted(set(tri.items()) - set(TRIGRAPHS.items()))}", prog.global_def(dm, "trigraphs"))
     wrong = sorted(set(DIGRAPHS.items()) - set(di.items()))
     outside = sorted(k for k, v in di.items() if v not in RESPELLABLE)
     run.ob("R-12.4", "lexer/dictionary.py::digraphs", not wrong and not outside,
-           f"digraph table: missing/wrong {wrong}, entries translating to a non-punctuator {outside}", dm.assigns["digraphs"][0])
+           f"digraph table: missing/wrong {wrong}, entries translating to a non-punctuator {outside}", prog.global_def(dm, "digraphs"))
 
     # ---- R-12.5 --------------------------------------------------------------------------------
     run.rule("R-12.5", "OWN: the source text is read only by the lexer (and File itself): rules and Context see token kinds, "
@@ -246,6 +501,10 @@ def check(run, prog):
            "the raw source text is read outside the lexer: " + ", ".join(f"{f.key}:{n.lineno}" for f, n in bad[:3]),
            bad[0][1] if bad else None, readers=sorted({f.key for f, _ in readers}))
     rule_position_caches(run, prog)
+    # R-10.6 (declared under its C10 name): a raw length used as a count of translated characters makes the tokens depend
+    # on the spelling
+    from .c10 import rule_pop_counts
+    rule_pop_counts(run, prog)
 
 
 def rule_position_caches(run, prog):
